@@ -96,6 +96,108 @@ func everyEntry(c *core.Ctx, short string, info *types.Info, g *cfgq.Graph, rs *
 	} else {
 		c.Check("R2.every-entry", short+"/restored", rs.Pos(), !miss, msg)
 	}
+	// what the filters are asked about: the db filter is defined on the SOURCE database of the entry, the key filter
+	// on its key. The argument is followed through conversions and locals; every value a local can hold counts.
+	var classify func(e ast.Expr, field string, depth int) int // 0 the entry's field, 1 not followed, 2 something else that is fully known
+	classify = func(e ast.Expr, field string, depth int) int {
+		e = Strip(info, e)
+		if sel, ok := e.(*ast.SelectorExpr); ok {
+			if core.IsFieldNamed(info, sel, "BinEntry", field) && Obj(info, sel.X) == entry {
+				return 0
+			}
+			if d := LitField(info, sel); d != nil && depth < 4 {
+				return classify(d, field, depth+1)
+			}
+			if _, isVar := core.ObjOf(info, sel).(*types.Var); isVar {
+				return 2 // another field / an option: not the entry's
+			}
+			return 1
+		}
+		if tv, ok := info.Types[e]; ok && tv.Value != nil {
+			return 2
+		}
+		id, ok := e.(*ast.Ident)
+		if !ok || depth >= 4 {
+			return 1
+		}
+		v, ok := info.Uses[id].(*types.Var)
+		if !ok || v.IsField() || v.Pkg() == nil || v.Parent() == v.Pkg().Scope() {
+			return 1
+		}
+		worst, ndef := 0, 0
+		core.InspectAll(g.Body, func(n ast.Node) bool {
+			switch t := n.(type) {
+			case *ast.AssignStmt:
+				for i, l := range t.Lhs {
+					if lid, isID := ast.Unparen(l).(*ast.Ident); isID && (info.Defs[lid] == types.Object(v) || info.Uses[lid] == types.Object(v)) {
+						ndef++
+						r := core.AssignedTo(t, i)
+						c := 1
+						if r != nil && (t.Tok == token.ASSIGN || t.Tok == token.DEFINE) {
+							c = classify(r, field, depth+1)
+						}
+						if c > worst {
+							worst = c
+						}
+					}
+				}
+			case *ast.ValueSpec:
+				for i, nm := range t.Names {
+					if info.Defs[nm] == types.Object(v) {
+						ndef++
+						c := 1
+						if i < len(t.Values) {
+							c = classify(t.Values[i], field, depth+1)
+						}
+						if c > worst {
+							worst = c
+						}
+					}
+				}
+			case *ast.UnaryExpr:
+				if t.Op == token.AND && Obj(info, t.X) == types.Object(v) {
+					if worst < 1 {
+						worst = 1
+					}
+				}
+			}
+			return true
+		})
+		if ndef == 0 {
+			return 1 // a parameter, a range variable of another loop: not followed
+		}
+		return worst
+	}
+	for _, spec := range []struct{ fn, field, what string }{
+		{"FilterDB", "DB", "the database filter (filter.db.whitelist / blacklist) is defined on the source database of the entry"},
+		{"FilterKey", "Key", "the key filter is defined on the key of the entry"},
+	} {
+		worst, n := 0, 0
+		var at ast.Node
+		core.Inspect(rs.Body, func(m ast.Node) bool {
+			call, ok := m.(*ast.CallExpr)
+			if !ok || !isFilter(call) || CalleeF(info, call).Name() != spec.fn || len(call.Args) != 1 {
+				return true
+			}
+			n++
+			if c := classify(call.Args[0], spec.field, 0); c >= worst {
+				worst, at = c, call
+			}
+			return true
+		})
+		if n == 0 {
+			continue // applied in a helper or not at all: R2.every-entry/restored speaks about the skipping edges
+		}
+		key := short + "/" + spec.fn
+		switch worst {
+		case 0:
+			c.Okf("R2.filter-arg", key, at.Pos(), "%s is asked about the entry's %s", spec.fn, spec.field)
+		case 1:
+			c.Undecidedf("R2.filter-arg", key, at.Pos(), "the argument of `%s` is not followed back to the entry", c.Src(at))
+		default:
+			c.Failf("R2.filter-arg", key, at.Pos(), "%s: `%s` asks it about a value that is not (or not on every path) the entry's %s - e.g. the fixed target database - so entries are dropped or let through by the wrong criterion while the run reports success", spec.what, c.Src(at), spec.field)
+		}
+	}
 	var w []string
 	for _, p := range g.Points(isRestore) {
 		if w == nil {
